@@ -26,6 +26,7 @@ type Program struct {
 	SSA     *ssa.Program
 	SSAPkg  map[string]*ssa.Package // by short path ("auth", "backend/posix")
 	NFuncs  int
+	Overlay map[string][]byte
 	fnIndex map[string]*ssa.Function
 }
 
@@ -79,7 +80,7 @@ func LoadProgram(dir string, overlay map[string][]byte, goos, goarch string) *Pr
 	if len(pkgs) == 0 {
 		broken("packages.Load: zero packages")
 	}
-	p := &Program{Dir: dir, Config: goos + "/" + goarch, ByPath: map[string]*packages.Package{},
+	p := &Program{Dir: dir, Overlay: overlay, Config: goos + "/" + goarch, ByPath: map[string]*packages.Package{},
 		SSAPkg: map[string]*ssa.Package{}, fnIndex: map[string]*ssa.Function{}}
 	var errs []string
 	packages.Visit(pkgs, nil, func(pk *packages.Package) {
